@@ -120,10 +120,14 @@ func runC20(t failer, c c20Case) (abandoned, rejected int) {
 	// the handler continues a session iff the request's first body octet says so
 	var h tq.HandlerFunc
 	h = func(resp tq.Response, req tq.Request) {
+		// replies are real authentication replies: a prompt (GETDATA, GETUSER or GETPASS by session id)
+		// when the session goes on, PASS or FAIL when it ends
+		st := tq.AuthenStatus(1 + req.Header.SessionID%2)
 		if len(req.Body) > 4 && req.Body[4] == 1 {
 			resp.Next(h)
+			st = tq.AuthenStatus(3 + req.Header.SessionID%3)
 		}
-		_, _ = resp.Reply(rawED{[]byte{0, 0, 0, 0, 0, 0}})
+		_, _ = resp.Reply(tq.NewAuthenReply(tq.SetAuthenReplyStatus(st), tq.SetAuthenReplyServerMsg("m")))
 	}
 	srv := startServer(nopLogger{}, refusingSP{staticSP{secret: secret, handler: h}})
 	type cstate struct {
